@@ -35,6 +35,11 @@ CLAIMED = {
         "level": "Decides the type-level sentence (safe Rust cannot share non-thread-safe state through the API) for every unsafe auto-trait impl in the crate; results under all schedules are not decided.",
         "note": "Partial: clauses S1, S3.",
     },
+    "C06": {
+        "technique": "interprocedural byte/char unit taint on MIR with parameter summaries; constant-offset inventory against a reviewed table; call-graph reachability of todo!()/unimplemented!() from the compile entry points; HIR arm checks (occurs check before binding, type-argument traversal, character_range at every ariadne call)",
+        "level": "Decides five necessary conditions (U1-U5), each of which located a real crash on this tree; panic-freedom and termination of the whole front end on arbitrary text is NOT decided (hundreds of invariant-dependent unwrap/ice! sites).",
+        "note": "Partial: clauses U1-U5.",
+    },
 }
 _PENDING = "check under construction in this session; not yet claimed"
 NOT_APPLICABLE = {p: _PENDING for p in
